@@ -57,7 +57,13 @@ func emitHDL(m *procbuilder.Machine, src []string, opt bool) {
 				}
 				bl := new(bmline.BasmLine)
 				bl.Operation = new(bmline.BasmElement)
-				bl.Operation.SetValue(f[0])
+				spelling := f[0]
+				if f[0] == "rset" && len(l)%2 == 0 {
+					// the assembler also reaches rset through its pseudo-instruction `mov rX, <number>`
+					// (Rset.HLAssemblerMatch): record through that spelling for half of the lines
+					spelling = "mov"
+				}
+				bl.Operation.SetValue(spelling)
 				for _, a := range f[1:] {
 					e := new(bmline.BasmElement)
 					e.SetValue(a)
@@ -266,6 +272,15 @@ func genArch(r *common.Rng) archSpec {
 	s.m = r.Intn(4)
 	s.l = 0
 	s.o = 2 + r.Intn(4)
+	if r.Chance(1, 4) {
+		s.o = 6 + r.Intn(7) // ROM addresses wider than a register: jz / j become the widest instructions
+	}
+	if r.Chance(1, 6) {
+		s.wordSize = 26 + r.Intn(20) // explicit WordSize: every instruction is narrower than the ROM word
+		if s.rsize > 16 {
+			s.wordSize = 0
+		}
+	}
 	pool := append([]string{}, coImplAll...)
 	if s.rsize <= 16 {
 		pool = append(pool, coImplSmall...)
